@@ -572,6 +572,8 @@ type c32Gate struct {
 	mu       sync.Mutex
 	groups   []c32Group
 	done     map[string]bool // "ev@proxy"
+	count    map[string]int  // completions of "ev@proxy"
+	need     map[string]int  // completions that make an event done (a refused prepare is tried 3 times)
 	wake     chan struct{}
 	timedOut bool
 }
@@ -582,7 +584,7 @@ type c32Group struct {
 }
 
 func c32NewGate(schedule []string, n int) *c32Gate {
-	g := &c32Gate{done: map[string]bool{}, wake: make(chan struct{})}
+	g := &c32Gate{done: map[string]bool{}, count: map[string]int{}, need: map[string]int{}, wake: make(chan struct{})}
 	for _, e := range schedule {
 		grp := c32Group{ev: e}
 		if i := strings.Index(e, "@"); i >= 0 {
@@ -656,7 +658,11 @@ func (g *c32Gate) enter(ev string, proxy int) {
 
 func (g *c32Gate) leave(proxy int, ev string) {
 	g.mu.Lock()
-	g.done[fmt.Sprint(ev, "@", proxy)] = true
+	k := fmt.Sprint(ev, "@", proxy)
+	g.count[k]++
+	if g.count[k] >= g.need[ev] {
+		g.done[k] = true
+	}
 	g.broadcast()
 	g.mu.Unlock()
 }
@@ -752,6 +758,11 @@ func (r *c32Rig) run(c c32Case) (res c32Result, inconclusive string) {
 	var gate *c32Gate
 	if c.Kind == "concurrent" {
 		gate = c32NewGate(c.Schedule, n)
+		for k := 0; k < nChanges; k++ {
+			if kinds[k] == "modifybad" || kinds[k] == "createbad" {
+				gate.need["p"+string(rune('A'+k))] = PREPARE_RETRY_TIMES
+			}
+		}
 	}
 	var mu sync.Mutex
 	type pstate struct {
